@@ -33,4 +33,13 @@ def make(rng, convention=None, **kw):
 def make_dressed(rng, convention=None, dress=None, **kw):
     m = make(rng, convention, **kw)
     grids.dress(m, rng, **(dress or {}))
+    if DECLARE_POLICY['x_first'] and rng.random() < 0.3:
+        m.encoding['x_first'] = True     # the dataset declares x before y (see base.declare_first)
     return m
+
+
+DECLARE_POLICY = {'x_first': False}
+
+
+def set_declaration_order_varies(flag=True):
+    DECLARE_POLICY['x_first'] = bool(flag)
